@@ -245,6 +245,38 @@ type session struct {
 	probes            []J
 	prof              *countingProfiler
 	nload, noCtxFirst int
+	errIdx            map[*lisp.LVal]int // identity of error objects seen in this evaluation (capture builtin, final value)
+}
+
+// errID numbers error objects by first sight within one evaluation (pointer identity).
+func (s *session) errID(v *lisp.LVal) int {
+	if s.errIdx == nil {
+		s.errIdx = map[*lisp.LVal]int{}
+	}
+	if id, ok := s.errIdx[v]; ok {
+		return id
+	}
+	id := len(s.errIdx) + 1
+	s.errIdx[v] = id
+	return id
+}
+
+// capture records the identity, condition, data and stack of the condition being handled
+// (Runtime.CurrentCondition), or 0 when there is none.
+func (s *session) capture(env *lisp.LEnv, args *lisp.LVal) *lisp.LVal {
+	cc := env.Runtime.CurrentCondition()
+	e := J{"tag": []interface{}{J{"t": "sym", "s": "capture", "q": true}, J{"t": "int", "n": 0}}, "capture": true}
+	if cc != nil {
+		e["tag"] = []interface{}{J{"t": "sym", "s": "capture", "q": true}, J{"t": "int", "n": s.errID(cc)}}
+		e["err"] = errInfo(cc)
+		var data []interface{}
+		for _, c := range cc.Cells {
+			data = append(data, jv(c))
+		}
+		e["data"] = data
+	}
+	s.probes = append(s.probes, e)
+	return lisp.Nil()
 }
 
 func frameView(fs []lisp.CallFrame) []interface{} {
@@ -296,7 +328,8 @@ func newSession(cfg runCfg) (*session, error) {
 	env.AddBuiltins(true, &hostFn{"probe", lisp.Formals(lisp.VarArgSymbol, "xs"), s.probe},
 		&hostFn{"boom", lisp.Formals(), func(*lisp.LEnv, *lisp.LVal) *lisp.LVal {
 			panic("boom (host builtin panic requested by the test program)")
-		}})
+		}},
+		&hostFn{"capture", lisp.Formals(), s.capture})
 	if rc := env.InPackage(lisp.String(lisp.DefaultUserPackage)); rc.Type == lisp.LError {
 		return nil, fmt.Errorf("in-package: %v", rc)
 	}
